@@ -446,6 +446,12 @@ impl<Notif> Drop for Subscription<Notif> {
 		// However, when a notification arrives, the background task will realize that the channel
 		// to the `Callback` has been closed.
 
+		// The stream has already ended (closed by the server, lagged or disconnected), the background task has
+		// dropped it and its ID may have been given to another subscription since: there is nothing to unsubscribe.
+		if self.is_closed {
+			return;
+		}
+
 		let msg = match self.kind.take() {
 			Some(SubscriptionKind::Method(notif)) => FrontToBack::UnregisterNotification(notif),
 			Some(SubscriptionKind::Subscription(sub_id)) => FrontToBack::SubscriptionClosed(sub_id),
